@@ -53,6 +53,9 @@ CONTEXTS = {
     "inside-ref-after-the-same-kind": "%o zz <ref>rr %s</ref>",
     "tag-function-ref": "{{#tag:ref|aa %s bb}}",
     "twice-in-one-paragraph": "%s and %o and %s",
+    # the source text of the region written out a second time as plain text
+    "followed-by-its-source-in-nowiki": "%s zz %r",
+    "preceded-by-its-source-in-nowiki": "%r zz %s",
 }
 OTHER = "qOtherq"
 TIMES = {"template-arg-used-twice": 2, "template-named-arg-used-thrice": 3}      # how often the context shows its region
@@ -153,7 +156,10 @@ def check_case(tag, body, ctxname):
     if closes_context(ctxname, body):
         return None
     vl = " lang=x" if tag in ("source", "syntaxhighlight") else ""
-    mk = lambda b: ctx.replace("%s", f"<{tag}{vl}>{b}</{tag}>").replace("%o", f"<{tag}{vl}>{OTHER}</{tag}>")  # noqa: E731
+    if "%r" in ctx and (tag == "nowiki" or "&" in body or re.search(r"</?nowiki", body, re.I)):
+        return None                     # the copy must be one plain nowiki region showing exactly the source text
+    mk = lambda b: (ctx.replace("%s", f"<{tag}{vl}>{b}</{tag}>").replace("%o", f"<{tag}{vl}>{OTHER}</{tag}>")  # noqa: E731
+                    .replace("%r", f"<nowiki><{tag}{vl}>{b}</{tag}></nowiki>"))
     placeholder = "QZQ"
     try:
         s0, t0, p0 = parse(mk(placeholder))
@@ -165,6 +171,7 @@ def check_case(tag, body, ctxname):
     else:
         want = body
     n = TIMES.get(ctxname, ctx.count("%s"))
+    copies = ctx.count("%r")            # nowiki copies of the region's source: they show the body as text
     if tag in ("math", "timeline"):
         caps0 = [c for _, c in p0]
         caps1 = [c for _, c in p1]
@@ -175,11 +182,11 @@ def check_case(tag, body, ctxname):
             return f"{tag} caption(s) {caps1!r} are not the body {want!r}"
         if merge_T(s0) != merge_T(s1):
             return f"the body changed the structure around the {tag}: {merge_T(s1)} vs {merge_T(s0)}"
-        if "".join(t0) != "".join(t1):
+        if "".join(t0).replace(placeholder, body if copies else placeholder) != "".join(t1):
             return f"the body leaked into the surrounding text: {''.join(t1)!r} vs {''.join(t0)!r}"
         return None
     txt0, txt1 = "".join(t0), "".join(t1)
-    if txt0.count(placeholder) != n:
+    if txt0.count(placeholder) != n + copies:
         return f"the body {placeholder!r} did not reach the tree verbatim: text {txt0!r}"
     if merge_T(s0) != merge_T(s1):
         return f"the body was interpreted: structure {merge_T(s1)} instead of {merge_T(s0)}"
